@@ -336,6 +336,10 @@ int main (int argc, char *argv[]) {
         }
         write_data(zck, data + start, in_size - (start + matched));
     }
+    /* Bytes held back because they might be the beginning of the split string
+     * are part of the input if it ends there */
+    if(matched > 0)
+        write_data(zck, arguments.split_string, matched);
     /* A failed read is not the end of the input */
     if(in_size < 0) {
         LOG_ERROR("Error reading %s: %s\n", arguments.args[0], strerror(errno));
